@@ -69,7 +69,9 @@ def stamp_class(proj: Path, name: str, stamp):
 def db_key(proj: Path, ignore_names=()):
     files, deps = read_db(proj)
     if files is None:
-        return ("nodb",)
+        return ((), ())   # no database yet == a database that knows no file
+    # the //ALWAYS row is created with the database; while pristine it carries no information
+    files = [r for r in files if not (r[1] == "//ALWAYS" and all(v is None for v in r[2:]))]
     runids = set()
     for r in files:
         for v in r[4:7]:
